@@ -184,7 +184,7 @@ pub fn run_c03(out: &mut Out, tier: &str, seed: u64) {
         if st.verif_parts() != SStream::init(&header, &key).parts() { out.hit("stream.init.state-differs-from-libsodium", "init".into(), json!({"op":"stream.init","key":hx(&key),"header":hx(&header)})); }
         out.case("stream.init", &[b(&header), b(&key)], &Outcome::Ok(st_toks(&st)), true);
     }
-    // object API: push stream / pull stream over the four named tags, vs the classic API
+    // object API: push stream / pull stream over the named tags and arbitrary tag bytes, vs the classic API
     for r in 0..(if thorough { 200 } else { 40 }) {
         let key: [u8; 32] = rng.arr();
         let (mut push, header): (DryocStream<Push>, StackByteArray<24>) = DryocStream::init_push(&StackByteArray::<32>::from(&key));
@@ -192,7 +192,8 @@ pub fn run_c03(out: &mut Out, tier: &str, seed: u64) {
         let mut cl = d_init(header.as_array(), &key);
         for j in 0..(2 + rng.below(6)) {
             let m = { let l = msg_len(&mut rng); rng.bytes(l) }; let ad = { let l = ad_len(&mut rng); rng.bytes(l) };
-            let tag = match rng.below(4) { 0 => Tag::MESSAGE, 1 => Tag::PUSH, 2 => Tag::REKEY, _ => Tag::FINAL };
+            // the four named tags, and any other tag byte (the property quantifies over every tag byte)
+            let tag = match rng.below(7) { 0 => Tag::MESSAGE, 1 => Tag::PUSH, 2 => Tag::REKEY, 3 => Tag::FINAL, _ => Tag::from_bits_retain(rng.below(256) as u8) };
             out.search_evaluations += 1;
             let c: Vec<u8> = match guard(|| push.push_to_vec(&m, Some(&ad), tag)) { Outcome::Ok(c) => c, _ => { out.hit("obj.stream.push.fails", format!("round {}", r), json!({"round":r})); break; } };
             if rng.below(5) == 0 {
